@@ -53,6 +53,10 @@ structure Level where
   inherit : Inherit := .none
   /-- `<%page args="a, b=3"/>`: parameter names with optional defaults (`**pageargs` is always appended) -/
   sig : List (Name × Option Val) := []
+  /-- the named blocks of this template written with `buffered="True"` -/
+  buffered : List Name := []
+  /-- the source lines of the anonymous blocks written with `buffered="True"` -/
+  bufferedAnon : List Nat := []
 
 def bodyName : Name := ['b', 'o', 'd', 'y']
 
@@ -316,6 +320,42 @@ structure Env where
   bound : List (Name × Val) := []
   pageargs : Option (List (Name × Val)) := none
 
+/-- what a call of a block leaves behind: (what it wrote to the output during the call, what it returned).
+A buffered block collects its content in a buffer of its own and *returns* it; any other block writes its content
+and returns `''`. -/
+def callResult (buffered : Bool) (content : List Out) : List Out × List Out :=
+  if buffered then ([], content) else (content, [])
+
+/-- `__M_writer(<call> or '')` at a block's position (since 248d875; the bare call before dropped the returned
+part) and `__M_writer(str(<call>))` of `${r.x()}`: the output holds what was written during the call, then what
+the call returned -/
+def writeCall (p : List Out × List Out) : List Out := p.1 ++ p.2
+
+/-- a callable has run (`r`); the calling statement writes its result -/
+def finishCall (buffered : Bool) (r : Res) : Res :=
+  match r with
+  | .ok content => .ok (writeCall (callResult buffered content))
+  | .error e => .error e
+
+theorem writeCall_callResult (buffered : Bool) (content : List Out) :
+    writeCall (callResult buffered content) = content := by
+  cases buffered <;> simp [writeCall, callResult]
+
+theorem finishCall_eq (buffered : Bool) (r : Res) : finishCall buffered r = r := by
+  cases r <;> simp [finishCall, writeCall_callResult]
+
+/-- is the named block `x` of template `t` buffered? -/
+def bufferedAt (c : List Level) (t : Nat) (x : Name) : Bool :=
+  match c[t]? with
+  | some l => l.buffered.contains x
+  | none => false
+
+/-- is the anonymous block on line `ln` of template `t` buffered? -/
+def bufferedAnonAt (c : List Level) (t : Nat) (ln : Nat) : Bool :=
+  match c[t]? with
+  | some l => l.bufferedAnon.contains ln
+  | none => false
+
 /-- call of what attribute access returned, with `run` = execution of a node list in an environment -/
 def invoke (c : List Level) (run : Env → List Node → Res) (lk : Lookup) (x : Name)
     (pos : List Val) (kw : List (Name × Val)) : Res :=
@@ -330,7 +370,9 @@ def invoke (c : List Level) (run : Env → List Node → Res) (lk : Lookup) (x :
       match bind params (kind != .defn) pos kw with
       | none => .error .typeError
       | some (b, extra) =>
-        run { tmpl := t, ctx := cx, bound := b, pageargs := if kind = .defn then none else some extra } kids
+        -- the flag is that of the definition that runs (the most-derived one), not of the block at the position
+        finishCall (kind == .block && bufferedAt c t x)
+          (run { tmpl := t, ctx := cx, bound := b, pageargs := if kind = .defn then none else some extra } kids)
 
 /-- sequencing of two outputs (an exception in the first discards the second) -/
 def seq (a b : Res) : Res :=
@@ -353,7 +395,8 @@ def step (c : List Level) (D : Dispatch) (run : Env → List Node → Res) (env 
     | some ns => match D.attr ns x with
       | some v => .ok [.val v]
       | none => .error .attributeError
-  | .block none _ kids => run env kids                   -- `__M_anon_N()`: a closure called in place
+  | .block none ln kids =>                               -- `__M_writer(__M_anon_N() or '')`: a closure called in place
+    finishCall (bufferedAnonAt c env.tmpl ln) (run env kids)
   | .block (some b) _ _ =>
     -- `if 'parent' not in context._data or not hasattr(context._data['parent'], b): context['self'].b(**pageargs)`
     let go : Bool := match D.ref env.ctx .parent with
